@@ -7,6 +7,12 @@ per-physical-file attribution (keyed by realpath), setmap totals, parse cache, d
 Model (Lean): CbiVerif.CB.insertFiles / counted / iter over the file-system description of the aliased tree
 (driver op "codebase"); the spellings handed to insert_file and the files visited by get_setmap are recorded
 from the real run.
+
+Besides the aliased-vs-canonical differential there are absolute expectations (a change that makes both variants wrong
+in the same way is invisible to the differential): setmap total = lines of the physical members each once; code bases
+of several directories in both listing orders (every physical member exactly once, whichever directory holds a link to
+it); full run = union of its compile commands analysed alone in a fresh state, in particular on mixed Fortran / C code
+bases whose units share headers.  The coverage export is compared by record NAME and used / unused lines.
 """
 from __future__ import annotations
 
@@ -24,6 +30,107 @@ from harness.gen import fstree
 
 FUEL = 3000
 INC_RE = re.compile(r'^#include "([^"]+)"$')
+
+
+# --------------------------------------------------------------------------
+# mixed-language code bases (same description format as cbgen.gen_codebase)
+# --------------------------------------------------------------------------
+def gen_mixed(rng):
+    """A small code base in which Fortran (free form) and C / C++ translation units include the SAME header(s), built by
+    two or three platforms in alternating order.  The shared headers hold only text that reads the same under every line
+    source (directives, plain declarations; no comments, quotes or continuation marks), so how many lines they have and
+    which of them a unit reaches does not depend on the language they are read as."""
+    hd = rng.choice(["include", "include/cfg", "src", "common"])
+    fd = rng.choice(["src", "fsrc", "src/phys"])
+    cd = rng.choice(["src", "csrc", "src/util"])
+    dirs = {""}
+    for d_ in (hd, fd, cd):
+        while d_:
+            dirs.add(d_)
+            d_ = os.path.dirname(d_)
+    dirs = [""] + sorted(x for x in dirs if x)
+    texts, headers, sources = {}, [], []
+
+    def hbody(k):
+        out = []
+        for _ in range(rng.randint(1, 3)):
+            r = rng.random()
+            if r < 0.35:
+                out.append(f"#define N{rng.choice('XYZ')}{k} {rng.randint(1, 64)}")
+            elif r < 0.7:
+                n = rng.choice(cbgen.NAMES)
+                out += [rng.choice([f"#ifdef {n}", f"#ifndef {n}", f"#if defined({n}) && {n} > 0"]), f"shared_{k}_{rng.randint(0, 9)} = 1", "#else", f"shared_{k}_other = 2", "#endif"]
+            else:
+                out.append(f"shared_plain_{k}_{rng.randint(0, 9)} = 0")
+        return out
+
+    nh = rng.randint(1, 2)
+    for k in range(nh):
+        h = os.path.join(hd if k == 0 else rng.choice([hd, "include"] if "include" in dirs else [hd]), f"defs{k}.{rng.choice(['h', 'h', 'hpp', 'inc'])}")
+        headers.append(h)
+    for k, h in enumerate(headers):
+        b = hbody(k)
+        if k == 0 and nh == 2 and rng.random() < 0.6:
+            b.insert(rng.randint(0, len(b)), f'#include "{os.path.relpath(headers[1], os.path.dirname(h) or ".")}"')
+        style = rng.random()
+        if style < 0.6:
+            b = [f"#ifndef DEFS{k}_H", f"#define DEFS{k}_H"] + b + ["#endif"]
+        elif style < 0.8:
+            b = ["#pragma once"] + b
+        texts[h] = b
+
+    def unit(path, decl):
+        b = []
+        for h in headers:
+            if h is headers[0] or rng.random() < 0.6:
+                b.append(f'#include "{os.path.relpath(h, os.path.dirname(path) or ".")}"')
+        if rng.random() < 0.4:
+            n = rng.choice(cbgen.NAMES)
+            b += [f"#ifdef {n}", decl("a"), "#endif"]
+        b.insert(rng.randint(0, len(b)), decl("b"))
+        if rng.random() < 0.3:      # the shared header a second time (its guard decides)
+            b.append(f'#include "{os.path.relpath(headers[0], os.path.dirname(path) or ".")}"')
+        return b
+
+    funits, cunits = [], []
+    for i in range(rng.randint(1, 2)):
+        p_ = os.path.join(fd, f"phys{i}.{rng.choice(['f90', 'F90'])}")
+        texts[p_] = unit(p_, lambda t, i=i: f"integer :: only_fortran_{t}{i}")
+        funits.append(p_)
+    for i in range(rng.randint(1, 2)):
+        p_ = os.path.join(cd, f"main{i}.{rng.choice(['c', 'cpp', 'cc'])}")
+        texts[p_] = unit(p_, lambda t, i=i: f"int only_c_{t}{i};")
+        cunits.append(p_)
+    sources = funits + cunits
+    if rng.random() < 0.4:
+        texts[os.path.join(rng.choice(dirs), "unused.c")] = ["int unused;", "int unused2;"]
+    links = []
+    tgt = rng.choice(sources + headers)
+    links.append((os.path.join(os.path.dirname(tgt), "link_" + os.path.basename(tgt)), tgt))
+    d_ = rng.choice([x for x in dirs if x])
+    links.append(("dl_" + d_.replace("/", "_"), d_))
+    names = cbgen.PLATFORM_NAMES[: rng.randint(2, 3)]
+    layout = rng.choice(["split", "both", "random"])
+
+    def cmd(s_):
+        defs = [f"-D{n}={rng.randint(0, 1)}" if rng.random() < 0.7 else f"-D{n}" for n in cbgen.NAMES if rng.random() < 0.4]
+        cc = "gfortran" if s_ in funits else rng.choice(["gcc", "g++", "clang"])
+        return {"file": s_, "directory": ".", "arguments": [cc] + defs + ["-c", s_]}
+
+    platforms = {}
+    for k, name in enumerate(names):
+        if layout == "split":
+            us = (funits if k % 2 == 0 else cunits)[:]
+        elif layout == "both":
+            us = [u for pair in zip(funits + [None] * 2, cunits + [None] * 2) for u in pair if u]
+            if rng.random() < 0.5:
+                us.reverse()
+        else:
+            us = [u for u in sources if rng.random() < 0.7] or [rng.choice(sources)]
+            rng.shuffle(us)
+        platforms[name] = [cmd(u) for u in us]
+    return dict(texts=texts, headers=headers, sources=sources, dirs=dirs, platforms=platforms, dangling=[], unknown=[], links=links,
+                layout=layout)
 
 
 # --------------------------------------------------------------------------
@@ -76,7 +183,7 @@ def normalise(rng, desc):
     return d
 
 
-def decorate(rng, d):
+def decorate(rng, d, xlinks=True):
     """The aliased variant: extra links + alias spellings of every reference.  Returns (desc, links)
     links: [(link path rel to root, target rel to root)]; link targets are written relative to the link."""
     a = copy.deepcopy(d)
@@ -107,6 +214,22 @@ def decorate(rng, d):
         nm = os.path.join(where, f"dlx{i}")
         if not (dd + "/").startswith(nm + "/"):
             links.append((nm, dd))
+    # cross-directory file links: the link sits in ANOTHER directory than its target (`0compat/kernel.cpp -> ../src/kernel.cpp`),
+    # under the target's own base name or a prefixed one; `0compat` holds nothing but links and sorts before every real
+    # directory, so such a link is enumerated (and sorted) before its target, also when the directories are separate roots
+    xdir = set()
+    if xlinks:
+        cand_t = [f for f in files if not f.startswith("vendored")]
+        for i in range(rng.randint(0, 2)):
+            t = rng.choice(cand_t)
+            # (directories that hold a source file: the directory has a row in the file tree of the link-free variant too)
+            others = sorted(set(os.path.dirname(f) for f in files if fstree.suffix_of(os.path.basename(f)) in EXTS) - {os.path.dirname(t)})
+            others = [x for x in others if not x.startswith("vendored")]
+            where = rng.choice(["0compat", "0compat"] + others)
+            nm = os.path.join(where, rng.choice(["", "aa_", "zz_"]) + os.path.basename(t))
+            if nm not in files and nm not in [l for l, _ in links]:
+                links.append((nm, t))
+                xdir.add(nm)
     if a.get("excludes"):
         where = rng.choice([x for x in real_dirs if not x.startswith("vendored")] or [""])
         links.append((os.path.join(where, "innocent.h"), "vendored/vend.h"))      # innocent name, excluded target
@@ -132,10 +255,18 @@ def decorate(rng, d):
             t = lmap[t]
         return t
 
+    def has_quote_include(f):
+        return any(INC_RE.match(x) for x in a["texts"].get(f, []))
+
     flinks = {}
     for ln, tg in links:
-        if os.path.basename(ln) != "plainlink":  # a command's file needs a source extension to be supported
-            flinks.setdefault(final(tg), []).append(ln)
+        if os.path.basename(ln) == "plainlink":  # a command's file needs a source extension to be supported
+            continue
+        if ln in xdir and has_quote_include(final(tg)):
+            # a file with #include "..." lines is not REFERRED to through a link in another directory (which directory such an
+            # include is resolved against is C04's question); the link is still there to be enumerated
+            continue
+        flinks.setdefault(final(tg), []).append(ln)
     dlinks = [(ln, os.path.normpath(tg)) for ln, tg in links if os.path.normpath(tg) in real_dirs or tg == "../cb-old"]
 
     def alias(p):
@@ -206,6 +337,7 @@ def decorate(rng, d):
             out[-1] = e["file"]
             e["arguments"] = out
     a["links"] = links
+    a["xdir"] = sorted(x for x in xdir if x in lmap)
     return a
 
 
@@ -229,8 +361,25 @@ def write_variant(base, d):
 # --------------------------------------------------------------------------
 # observation of the real analysis
 # --------------------------------------------------------------------------
-def observe(root, platforms, want_cov=False, excludes=()):
-    """Run finder.find + reports on the code base at root. Returns a dict of observations."""
+def analyse_dirs(root, dirs, platforms, excludes=(), only=None):
+    """finder.find on a code base made of the listed directories (root-relative spellings, in this order).
+    only = (platform, index): the configuration holds that single compile command."""
+    from codebasin import CodeBase, config, finder
+
+    cfg = {}
+    for name in platforms:
+        if only is not None and name != only[0]:
+            continue
+        db = config.load_database(os.path.join(root, f"{name}.json"), root)
+        cfg[name] = db if only is None else [db[only[1]]]
+    cb = CodeBase(*[os.path.join(root, d) for d in dirs], exclude_patterns=list(excludes))
+    st = finder.find(root, cb, cfg, summarize_only=False)
+    return cb, st
+
+
+def observe(root, platforms, want_cov=False, excludes=(), dirs=None, light=False):
+    """Run finder.find + reports on the code base at root (dirs: on the code base made of these sub-directories of root, in
+    this order; light: no duplicates / file-tree report). Returns a dict of observations."""
     from codebasin import finder, report
     from codebasin.finder import ParserState
 
@@ -243,7 +392,10 @@ def observe(root, platforms, want_cov=False, excludes=()):
 
     ParserState.insert_file = rec_insert
     try:
-        cb, st = cbgen.analyse(root, platforms, excludes=excludes)
+        if dirs is None:
+            cb, st = cbgen.analyse(root, platforms, excludes=excludes)
+        else:
+            cb, st = analyse_dirs(root, dirs, platforms, excludes=excludes)
     finally:
         ParserState.insert_file = orig_insert
     members = list(cb)
@@ -264,12 +416,23 @@ def observe(root, platforms, want_cov=False, excludes=()):
     att = {}
     for rel, dct in cbgen.attribution(phys + [k for k in st.trees if k not in phys], st, root).items():
         att[rel] = {ln: sorted(ps) for ln, ps in dct.items()}
+    # what "each physical member counted exactly once" amounts to, computed from the parse trees by definition
+    from codebasin.preprocessor import CodeNode
+    once_total = 0
+    for p_ in phys:
+        t_ = st.get_tree(p_)
+        if t_ is not None:
+            once_total += sum(n.num_lines for n in t_.walk() if isinstance(n, CodeNode))
+    if light:
+        return {"members": members, "phys": [os.path.relpath(p, root) for p in phys], "setmap": {",".join(sorted(k)): v for k, v in setmap.items()},
+                "att": att, "trees": sorted(st.trees.keys()), "inserted": inserted, "visited": visited, "once_total": once_total, "cb": cb, "st": st}
     dups = sorted(sorted(os.path.relpath(str(p), root) for p in grp) for grp in report.find_duplicates(cb))
     dup_links = [str(p) for grp in report.find_duplicates(cb) for p in grp if Path(p).is_symlink()]
     buf = io.StringIO()
     report.files(cb, st, stream=buf)
     rows = cbgen.parse_tree(buf.getvalue())
     return {
+        "once_total": once_total,
         "members": members, "phys": [os.path.relpath(p, root) for p in phys], "setmap": {",".join(sorted(k)): v for k, v in setmap.items()},
         "att": att, "trees": sorted(st.trees.keys()), "inserted": inserted, "visited": visited,
         "dups": dups, "dup_links": dup_links, "rows": rows, "cb": cb, "st": st,
@@ -283,14 +446,122 @@ def coverage_records(root, dbname):
     return json.load(open(os.path.join(root, "cov_out.json"))), ""
 
 
+def coverage_records_inproc(root, dbname, excludes=()):
+    """the exporter behind `cbi-cov compute`, called in this process (the CLI front end only parses the options)"""
+    import argparse
+
+    from codebasin.coverage.__main__ import _compute
+
+    out = os.path.join(root, "cov_inproc.json")
+    ns = argparse.Namespace(ifile=os.path.join(root, dbname), ofile=out, source_dir=root, excludes=list(excludes))
+    try:
+        _compute(ns)
+    except SystemExit as e:
+        if e.code not in (0, None):
+            return None, f"exit {e.code}"
+    except Exception as e:  # noqa
+        return None, f"{type(e).__name__}: {e}"
+    try:
+        return json.load(open(out)), ""
+    finally:
+        os.unlink(out)
+
+
+def compare_coverage(ctx, case, ra, rc_, rootA, how):
+    """The export of the aliased code base must be the export of the canonical one: one record per physical file, under the
+    file's own name, with the same used / unused lines."""
+    names_a = [r["file"] for r in ra]
+    pa = sorted(os.path.relpath(os.path.realpath(os.path.join(rootA, n)), rootA) for n in names_a)
+    pc = sorted(r["file"] for r in rc_)
+    if pa != pc:
+        extra = [n for n in names_a if os.path.islink(os.path.join(rootA, n))]
+        ctx.classify(dict(case, coverage_files=names_a, coverage_how=how),
+                     f"{how} writes records for {names_a}: physical files {pa} instead of each once {pc}",
+                     [("F-C15-COV", lambda c: sorted(set(pa)) == pc and len(extra) == len(pa) - len(pc))])
+        return {"aliased": names_a, "canonical": pc}
+    da, dc = {r["file"]: r for r in ra}, {r["file"]: r for r in rc_}
+    for n in names_a:
+        if n not in dc:
+            full = os.path.join(rootA, n)
+            tgt = os.path.relpath(os.path.realpath(full), rootA)
+            ctx.violation(f"{how}: the record of the physical file {tgt} is named {n}" + (" (a symbolic link to it)" if os.path.islink(full) else " (another spelling)") +
+                          f"; the export of the same code base without links names it {tgt}: records {names_a} vs {sorted(dc)}",
+                          dict(case, coverage_files=names_a, coverage_how=how))
+            return {"aliased": names_a, "canonical": pc}
+    for n in names_a:
+        # `id` is the digest of the file's bytes: the two variants spell their #include lines differently, so it is not compared
+        keys = ("used_lines", "unused_lines")
+        if any(da[n].get(k) != dc[n].get(k) for k in keys):
+            diff = {k: (da[n].get(k), dc[n].get(k)) for k in keys if da[n].get(k) != dc[n].get(k)}
+            ctx.violation(f"{how}: the record of {n} differs from the export of the canonical code base in {str(diff)[:300]}",
+                          dict(case, coverage_files=names_a, coverage_how=how))
+            break
+    return {"aliased": names_a, "canonical": pc}
+
+
+def fresh_union(root, plats, excludes, phys_abs):
+    """{member file: {line: [platforms]}}: the union, over every compile command of every platform, of the attribution that
+    command produces when it is analysed ALONE in a fresh state (new ParserState, every file parsed for the first time).
+    This is what "all attributions of several compile commands / include directives land on the same lines of the one
+    physical file" demands of the full run, stated without reference to the full run."""
+    union, ncmd = {}, 0
+    for p in plats:
+        ndb = len(json.load(open(os.path.join(root, f"{p}.json"))))
+        for i in range(ndb):
+            cb, st = analyse_dirs(root, ["."], [p], excludes, only=(p, i))
+            ncmd += 1
+            for rel, dct in cbgen.attribution(phys_abs, st, root).items():
+                u = union.setdefault(rel, {})
+                for ln, ps in dct.items():
+                    u.setdefault(ln, set()).update(ps)
+    return {rel: {ln: sorted(ps) for ln, ps in d.items()} for rel, d in union.items()}, ncmd
+
+
+def multi_root_plan(rng, canon, alias, forced=None):
+    """Directories for `CodeBase(d1, d2, ...)`: the top-level directories of the tree (files directly under the root are then
+    outside the code base), in a random order; the aliased variant lists in addition the directories that hold nothing
+    but links and may spell a directory through a top-level directory link.  Returns None if there are fewer than two."""
+    if forced:
+        return forced
+    tops = sorted({f.split("/")[0] for f in canon["texts"] if "/" in f and not f.startswith("vendored")})
+    if len(tops) < 2:
+        return None
+    lnames = {ln for ln, _ in alias["links"]}
+    linkonly = sorted({ln.split("/")[0] for ln in lnames if "/" in ln} - set(tops) - lnames - {"vendored"})
+    order = tops + linkonly
+    rng.shuffle(order)
+    toplinks = {}
+    for ln, tg in alias["links"]:
+        if "/" not in ln and os.path.normpath(tg) in tops:
+            toplinks.setdefault(os.path.normpath(tg), []).append(ln)
+    spelled = []
+    for d in order:
+        r = rng.random()
+        if d in toplinks and r < 0.3:
+            spelled.append(rng.choice(toplinks[d]))
+        elif r < 0.45:
+            spelled.append("./" + d)
+        else:
+            spelled.append(d)
+    return {"canonical": [d for d in order if d in tops], "aliased": spelled}
+
+
+LINK_ONLY_DIRS = ("0compat/",)
+
+
 def rows_key(rows):
-    """file-tree rows without link rows: (depth, is_dir, name, platforms, sloc)"""
-    return sorted((r[4], r[5], r[6], r[0], r[1]) for r in rows if " -> " not in r[6] and r[4] > 0)
+    """file-tree rows without link rows and without the row of a directory that holds nothing but links (it has no
+    counterpart in the link-free tree; its figures must be zero): (depth, is_dir, name, platforms, sloc)"""
+    return sorted((r[4], r[5], r[6], r[0], r[1]) for r in rows if " -> " not in r[6] and r[4] > 0 and not (r[5] and r[6] in LINK_ONLY_DIRS))
 
 
 # --------------------------------------------------------------------------
-def check_case(ctx, drv, scr, idx, canon, alias, origin, want_cov=False):
+def check_case(ctx, drv, scr, idx, canon, alias, origin, want_cov=False, extras=None):
+    """extras (stored in the case, so that a replay repeats them): {"cov_inproc": bool, "multi": True | plan, "union": bool}"""
+    extras = dict(extras or {})
     case = {"canonical": canon, "aliased": alias, "origin": origin}
+    if extras:
+        case["extras"] = extras
     if isinstance(canon, dict) and origin == "replay-history":
         case["history"] = canon.get("_history")
     baseC, baseA = os.path.join(scr, f"C{idx}"), os.path.join(scr, f"A{idx}")
@@ -354,11 +625,25 @@ def check_case(ctx, drv, scr, idx, canon, alias, origin, want_cov=False):
         if vis != oa["phys"] or any(os.path.islink(v) for v in oa["visited"]):
             bad.append(f"get_setmap visits {oa['visited']} — not each physical member exactly once")
         # duplicates
-        if oa["dups"] != oc["dups"] or oa["dup_links"]:
+        # (two byte-identical files of the canonical variant whose #include lines got different alias spellings are no longer
+        # byte-identical in the aliased variant: the classes are compared after refining each by the other variant's texts)
+        def refine(groups, texts):
+            o_ = []
+            for g in groups:
+                by = {}
+                for f in g:
+                    by.setdefault(tuple(texts.get(f, [f])), []).append(f)
+                o_ += [sorted(v) for v in by.values() if len(v) > 1]
+            return sorted(o_)
+
+        if refine(oa["dups"], canon["texts"]) != refine(oc["dups"], alias["texts"]) or oa["dup_links"]:
             bad.append(f"duplicates differ: aliased {oa['dups']} (links {oa['dup_links']}) vs canonical {oc['dups']}")
         # file tree: rows other than link rows are the same, root figure = total
         if rows_key(oa["rows"]) != rows_key(oc["rows"]):
             bad.append(f"file-tree rows differ: aliased {rows_key(oa['rows'])} vs canonical {rows_key(oc['rows'])}")
+        for r in oa["rows"]:
+            if r[5] and r[6] in LINK_ONLY_DIRS and (r[1] != "0" or r[0].strip("-")):
+                bad.append(f"file-tree row of the directory {r[6]} (nothing but links to members) shows platforms {r[0]!r} / SLOC {r[1]}: a link adds nothing to any total")
         if oa["rows"] and oc["rows"] and (oa["rows"][0][:4] != oc["rows"][0][:4]):
             bad.append(f"file-tree root row differs: aliased {oa['rows'][0][:4]} vs canonical {oc['rows'][0][:4]}")
         tot = sum(oa["setmap"].values())  # the SLOC column adds up every platform set, the empty one included
@@ -377,14 +662,48 @@ def check_case(ctx, drv, scr, idx, canon, alias, origin, want_cov=False):
             if ra is None or rc_ is None:
                 ctx.violation(f"cbi-cov compute fails: {ea or ec}", case)
             else:
-                pa = sorted(os.path.relpath(os.path.realpath(os.path.join(rootA, r["file"])), rootA) for r in ra)
-                pc = sorted(r["file"] for r in rc_)
-                out["coverage"] = {"aliased": pa, "canonical": pc}
-                if pa != pc:
-                    extra = [r["file"] for r in ra if os.path.islink(os.path.join(rootA, r["file"]))]
-                    ctx.classify(dict(case, coverage_files=[r["file"] for r in ra]),
-                                 f"cbi-cov compute writes records for {[r['file'] for r in ra]}: physical files {pa} instead of each once {pc}",
-                                 [("F-C15-COV", lambda c: sorted(set(pa)) == pc and len(extra) == len(pa) - len(pc))])
+                out["coverage"] = compare_coverage(ctx, case, ra, rc_, rootA, "cbi-cov compute")
+        if extras.get("cov_inproc") and plats:
+            # the same exporter in this process, on more cases than the CLI budget allows, with the exclude patterns
+            db = ctx.rng.choice(plats) if not extras.get("cov_db") else extras["cov_db"]
+            extras["cov_db"] = db
+            ra, ea = coverage_records_inproc(rootA, db + ".json", alias.get("excludes", ()))
+            rc_, ec = coverage_records_inproc(rootC, db + ".json", canon.get("excludes", ()))
+            ctx.count(key="coverage_inproc")
+            if rc_ is None:
+                ctx.notes.append(f"coverage export of the canonical variant fails ({ec}) - comparison dropped")
+            elif ra is None:
+                ctx.violation(f"the coverage export ({db}.json) of the aliased variant fails ({ea}) although the canonical one is exported", case)
+            else:
+                if any(os.path.islink(os.path.join(rootA, ln)) and (ln < os.path.relpath(os.path.realpath(os.path.join(rootA, ln)), rootA))
+                       and os.path.relpath(os.path.realpath(os.path.join(rootA, ln)), rootA) in oc["phys"] for ln, _ in alias["links"]):
+                    ctx.count(key="coverage:member_link_sorts_before_target")
+                out["coverage_inproc"] = compare_coverage(ctx, case, ra, rc_, rootA, f"coverage export ({db}.json, _compute in process)")
+        # ---- absolute expectation 1: every physical member is counted exactly once (sum of the setmap = lines of the parse
+        # trees of the physical members, each taken once)
+        if sum(oa["setmap"].values()) != oa["once_total"]:
+            ctx.violation(f"setmap total {sum(oa['setmap'].values())} != {oa['once_total']} = counted lines of the physical member files {oa['phys']}, each once", case)
+        # ---- absolute expectation 2: full run = union of its compile commands, each analysed alone in a fresh state
+        if extras.get("union") and plats:
+            exp, ncmd = fresh_union(rootA, plats, alias.get("excludes", ()), [os.path.join(rootA, p) for p in oa["phys"]])
+            ctx.count(key="union_oracle_case")
+            ctx.dist["union_oracle_single_command_runs"] += ncmd
+            ubad = []
+            for rel in oa["phys"]:
+                got = oa["att"].get(rel)
+                if got is not None and exp.get(rel) is not None and got != exp[rel]:
+                    lines = sorted(ln for ln in set(got) | set(exp[rel]) if got.get(ln) != exp[rel].get(ln))
+                    ubad.append(f"{rel} lines {lines[:8]}: full run {[got.get(l) for l in lines[:4]]}, union of the {ncmd} commands analysed alone {[exp[rel].get(l) for l in lines[:4]]}")
+            out["union"] = {"commands": ncmd, "problems": ubad}
+            if ubad:
+                ctx.violation("attributions made through several compile commands / include directives do not all land on the lines finally "
+                              "counted: " + "; ".join(ubad[:2]), case)
+        # ---- several directories: CodeBase(d1, d2, ...) in both orders
+        if extras.get("multi"):
+            plan = multi_root_plan(ctx.rng, canon, alias, extras["multi"] if isinstance(extras["multi"], dict) else None)
+            if plan is not None:
+                extras["multi"] = plan
+                out["multi"] = multi_root_check(ctx, drv, case, canon, alias, rootC, rootA, baseA, plats, plan)
         # model: parse-cache keys and counted files
         if drv is not None:
             entries = fstree.scan(baseA)
@@ -417,6 +736,92 @@ def check_case(ctx, drv, scr, idx, canon, alias, origin, want_cov=False):
         shutil.rmtree(baseC, ignore_errors=True)
         shutil.rmtree(baseA, ignore_errors=True)
     return out
+
+
+def multi_root_check(ctx, drv, case, canon, alias, rootC, rootA, baseA, plats, plan):
+    """The code base is `CodeBase(root/d1, root/d2, ...)`.  Canonical variant (no links) once; aliased variant with the
+    directories in the planned order and in the reverse order.  Expected: the same physical members, the same per-file
+    attribution and setmap as the canonical variant (a link adds nothing, wherever its target lives and whichever
+    directory is listed first), and absolutely: every physical member visited / counted exactly once."""
+    res = {"plan": plan, "problems": []}
+    exC, exA = canon.get("excludes", ()), alias.get("excludes", ())
+    try:
+        oc = observe(rootC, plats, excludes=exC, dirs=plan["canonical"], light=True)
+    except Exception as e:  # noqa
+        ctx.notes.append(f"multi-directory canonical variant not analysable ({type(e).__name__}: {e}) - dropped")
+        return res
+    ctx.count(key="multi_root_case")
+    ctx.dist[f"multi_root:dirs={len(plan['aliased'])}"] += 1
+    # does a member link sit in a directory listed BEFORE the directory of its target (in one of the two orders it does, if
+    # the link crosses directories at all)?
+    rdirs = [os.path.realpath(os.path.join(rootA, d)) for d in plan["aliased"]]
+
+    def root_of(p):
+        for i, r in enumerate(rdirs):
+            if p == r or p.startswith(r + "/"):
+                return i
+        return None
+
+    cross = []
+    for ln, tg in alias["links"]:
+        full = os.path.join(rootA, ln)
+        rp = os.path.realpath(full)
+        if os.path.isfile(rp) and os.path.relpath(rp, rootA) in oc["phys"]:
+            a_, b_ = root_of(os.path.join(os.path.realpath(os.path.dirname(full)), os.path.basename(full))), root_of(rp)
+            if a_ is not None and b_ is not None and a_ != b_:
+                cross.append(ln)
+    if cross:
+        ctx.count(key="multi_root:member_link_in_another_directory_than_its_target")
+        ctx.nontrivial.add(case["origin"] + "/multi")
+    bad = []
+    prev = None
+    for tag, order in (("listed order", list(plan["aliased"])), ("reverse order", list(reversed(plan["aliased"])))):
+        try:
+            oa = observe(rootA, plats, excludes=exA, dirs=order, light=True)
+        except Exception as e:  # noqa
+            bad.append(f"[{tag} {order}] aborts with {type(e).__name__}: {e} although the canonical variant is analysed")
+            continue
+        if oa["phys"] != oc["phys"]:
+            bad.append(f"[{tag} {order}] physical member files {oa['phys']} vs canonical {oc['phys']}")
+        vis = sorted(os.path.relpath(os.path.realpath(v), rootA) for v in oa["visited"])
+        if vis != oc["phys"] or any(os.path.islink(v) for v in oa["visited"]):
+            miss = sorted(set(oc["phys"]) - set(vis))
+            rep = sorted(set(v for v in vis if vis.count(v) > 1))
+            bad.append(f"[{tag} {order}] get_setmap does not count each physical member exactly once: never counted {miss}, counted repeatedly {rep}, "
+                       f"links counted {[os.path.relpath(v, rootA) for v in oa['visited'] if os.path.islink(v)]}; enumerated: {[os.path.relpath(m, rootA) for m in oa['members']]}")
+        if sum(oa["setmap"].values()) != oc["once_total"]:
+            bad.append(f"[{tag} {order}] setmap total {sum(oa['setmap'].values())} != {oc['once_total']} = counted lines of the link-free code base, each file once")
+        if oa["setmap"] != oc["setmap"]:
+            bad.append(f"[{tag} {order}] setmap {oa['setmap']} vs canonical (no links) {oc['setmap']}")
+        for rel in sorted(set(oc["att"]) | set(oa["att"])):
+            if oc["att"].get(rel) != oa["att"].get(rel):
+                bad.append(f"[{tag} {order}] attribution of {rel}: {str(oa['att'].get(rel))[:160]} vs canonical {str(oc['att'].get(rel))[:160]}")
+                break
+        if prev is not None and prev != oa["setmap"]:
+            bad.append(f"the setmap depends on the order in which the directories are listed: {prev} vs {oa['setmap']}")
+        prev = oa["setmap"]
+        res[tag] = {"members": [os.path.relpath(m, rootA) for m in oa["members"]], "setmap": oa["setmap"], "visited": vis}
+        if drv is not None:
+            entries = fstree.scan(baseA)
+            ign = []
+            if exA:
+                for r in rdirs:
+                    for dp, dns, fns in os.walk(r):
+                        for nm in fns + dns:
+                            rel = os.path.relpath(os.path.join(dp, nm), r)
+                            if fstree.pathspec_ignored(list(exA), rel) is True:
+                                ign.append(rel)
+            rep_ = drv.ask({"op": "codebase", "fs": fstree.fs_description(baseA, entries), "cwd": rootA, "roots": [os.path.join(rootA, d) for d in order],
+                            "ignored": sorted(set(ign)), "catchLoop": False, "fuel": FUEL, "queries": [], "inserts": oa["inserted"]})
+            if rep_.get("iter") == "loop" or sorted(rep_.get("iter", [])) != sorted(oa["members"]):
+                ctx.corr_break("codebase.iter(multi)", case, sorted(oa["members"]), rep_.get("iter"))
+            if rep_.get("counted") == "loop" or sorted(rep_.get("counted", [])) != sorted(oa["visited"]):
+                ctx.corr_break("codebase.counted(multi)", case, sorted(oa["visited"]), rep_.get("counted"))
+    res["canonical"] = {"phys": oc["phys"], "setmap": oc["setmap"], "once_total": oc["once_total"]}
+    res["problems"] = bad
+    if bad:
+        ctx.violation(f"code base of several directories {plan['aliased']} (canonical: {plan['canonical']}): " + "; ".join(bad[:2]), case)
+    return res
 
 
 def repoint_history(ctx, alias, rootA, baseA, plats, case):
@@ -498,10 +903,24 @@ def run(ctx, drv):
                 "compile commands, -I options and #include directives spelled through aliases; compared with "
                 "the canonical variant (no links, canonical spellings). Non-trivial = distinct case with at least one link in which a "
                 "command or an #include actually goes through an alias.  Every third case continues with a history step: a file link is re-pointed "
-                "to another file and the analysis repeated in the same process must equal the analysis of a copy of the tree at another path.")
+                "to another file and the analysis repeated in the same process must equal the analysis of a copy of the tree at another path.  "
+                "Cross-directory file links (`0compat/x.c -> ../src/x.c`, a link-only directory that sorts before every real one; links under the "
+                "target's own base name in other directories).  Coverage export (CLI on the first cases, the exporter in process on every sixth): the "
+                "records of the aliased code base must be those of the canonical one BY NAME and by used / unused lines.  Absolute expectations: "
+                "(1) every case: setmap total = counted lines of the physical members, each once; (2) every fifth case with >= 2 top-level "
+                "directories: CodeBase(d1, d2, ...) in a random order and in the reverse order (directories spelled through top-level links or `./`), "
+                "each physical member counted exactly once, same setmap / attribution as the link-free variant, independent of the order; "
+                "(3) union oracle (every twelfth case and every mixed-language case): per-line attribution of the full run = union over all compile "
+                "commands of that command analysed alone in a fresh state.  Mixed-language stream: Fortran free-form and C / C++ units include the "
+                "same headers, 2-3 platforms in split / both / random layouts, decorated with the same aliases.")
     ctx.assumptions += [
-        "links to files sit in the directory of their target or are directory links, so that the directory an #include is resolved "
-        "against is the same for every alias (which directory a preprocessor uses for a file reached through a link is C04's question)",
+        "a file that contains #include \"...\" lines is referred to (compile command, #include) only through links that sit in the directory "
+        "of their target or through directory links, so that the directory an #include is resolved against is the same for every alias (which "
+        "directory a preprocessor uses for a file reached through a link is C04's question); links in OTHER directories exist for every kind "
+        "of file and are enumerated, and files without such lines are also referred to through them",
+        "the directories of a multi-directory code base are pairwise disjoint (no directory listed twice or inside another one: the unchanged "
+        "code walks the overlap twice - Lean counted_once carries the same hypothesis; reported with a proposed repair, patches/F-C15-ROOTS_overlapping_directories.diff)",
+        "the shared headers of the mixed-language stream hold text that reads the same under the C and the Fortran line source (no comments, quotes, continuations)",
         "`x/../` segments go through real directories only (the lexical reading of `..` behind a directory link is C13's question)",
         "file systems contain regular files, directories and symbolic links only",
     ]
@@ -523,7 +942,19 @@ def run(ctx, drv):
             canon = normalise(ctx.rng, desc)
             alias = decorate(ctx.rng, canon)
             canon = dict(canon, links=[])
-            check_case(ctx, drv, scr, i, canon, alias, f"gen#{i}", want_cov=(i < ncov))
+            check_case(ctx, drv, scr, i, canon, alias, f"gen#{i}", want_cov=(i < ncov),
+                       extras={"cov_inproc": i % 6 == 1, "multi": i % 5 == 2, "union": i % 12 == 4})
+        # mixed-language stream: Fortran and C / C++ units share headers, platforms alternate between the two families
+        for i in range(ctx.n(20, 240)):
+            if len(ctx.violations) >= 20:
+                break
+            desc = gen_mixed(ctx.rng)
+            canon = normalise(ctx.rng, desc)
+            alias = decorate(ctx.rng, canon)
+            canon = dict(canon, links=[])
+            ctx.count(key=f"mixed:{desc['layout']}")
+            check_case(ctx, drv, scr, f"m{i}", canon, alias, f"mixed#{i}", want_cov=(i == 0),
+                       extras={"union": True, "cov_inproc": i % 4 == 1, "multi": i % 3 == 2})
 
 
 def search(ctx, drv):
@@ -540,7 +971,7 @@ def replay(ctx, drv, case):
         if "history" in case:
             case["canonical"] = dict(case["canonical"], _history=case["history"])
         res = check_case(ctx, drv, scr, "r", case["canonical"], case["aliased"], "replay-history" if "history" in case else "replay",
-                         want_cov=("coverage_files" in case))
+                         want_cov=("coverage_files" in case and "in process" not in case.get("coverage_how", "")), extras=case.get("extras"))
         res["violations"] = [w for w, _ in ctx.violations]
         res["known_findings"] = sorted(ctx.known_seen)
         return json.loads(json.dumps(res, default=str).replace(scr, "$SCRATCH"))
